@@ -169,7 +169,8 @@ def gen_case(rng, idx):
             svc = [elems[-1]]
         e = rng.choice(svc)
         e["fail_after"] = rng.choice([0.0, 0.05, 0.2])
-        e["fail_kind"] = rng.choice(["raise", "return"])
+        e["fail_kind"] = rng.choice(["raise", "return", "raise", "return", "systemerror", "oserror", "timeout", "connection",
+                                     "tuple", "emptytuple", "falsy"])
         e.pop("idle", None)
     return case
 
@@ -203,7 +204,8 @@ def corpus():
         yield {"idx": 9010 + k, "kind": "yaml", "fault": fault, "logging": False, "sigint_after": 0.0,
                "elems": [{"cls": "CtrlTrio", "ident": 1, "flavour": "trio", "form": "tag"},
                          {"cls": "PoolTrio", "ident": 2, "flavour": "trio", "form": "tag"}]}
-    for k, (fl, fk) in enumerate([("trio", "raise"), ("asyncio", "return"), ("threading", "raise")]):
+    for k, (fl, fk) in enumerate([("trio", "raise"), ("asyncio", "return"), ("threading", "raise"), ("asyncio", "timeout"),
+                                  ("threading", "connection"), ("asyncio", "tuple"), ("threading", "emptytuple"), ("trio", "oserror")]):
         yield {"idx": 9020 + k, "kind": "yaml", "fault": "service_fail", "logging": False, "sigint_after": 0.0,
                "elems": [{"cls": "Ctrl" + fl.capitalize(), "ident": 1, "flavour": fl, "form": "tag", "fail_after": 0.1, "fail_kind": fk},
                          {"cls": "PoolTrio", "ident": 2, "flavour": "trio", "form": "type"}]}
